@@ -833,6 +833,49 @@ def option_map(ex, args, callee):
     return NONE
 
 
+@stub('str::trim_end', 'str::trim_start', 'str::trim', 'str::trim_end_matches', 'str::trim_start_matches', 'str::trim_matches')
+def str_trim(ex, args, callee):
+    """Abstract strings: either nothing is trimmed (same string) or the result is a strictly shorter, different string."""
+    s0 = as_str(ex, args[0])
+    if ex.choose([z3.BoolVal(True), z3.BoolVal(True)], free=True) == 0:
+        return s0.as_type('str')
+    n = ex.fresh('len_trimmed', 64)
+    ex.assume(z3.ULT(n, s0.length()))
+    return Str((Atom('trimmed#%d' % fresh_id(), n),), 'str')
+
+
+@stub('Option::map_or')
+def option_map_or(ex, args, callee):
+    v = args[0]
+    if is_variant(v, 'Some'):
+        return call_callable(ex, args[2], [v.fields[0]])
+    return args[1]
+
+
+@stub('Option::map_or_else')
+def option_map_or_else(ex, args, callee):
+    v = args[0]
+    if is_variant(v, 'Some'):
+        return call_callable(ex, args[2], [v.fields[0]])
+    return call_callable(ex, args[1], [])
+
+
+@stub('Result::map_or')
+def result_map_or(ex, args, callee):
+    v = args[0]
+    if is_variant(v, 'Ok'):
+        return call_callable(ex, args[2], [v.fields[0]])
+    return args[1]
+
+
+@stub('Result::map_or_else')
+def result_map_or_else(ex, args, callee):
+    v = args[0]
+    if is_variant(v, 'Ok'):
+        return call_callable(ex, args[2], [v.fields[0]])
+    return call_callable(ex, args[1], [v.fields[0]])
+
+
 @stub('Option::and_then')
 def option_and_then(ex, args, callee):
     v = args[0]
